@@ -57,9 +57,27 @@ PROPS = {
         outside=["batches of more than 3 items", "stored lists longer than 2", "text values longer than 2 chars"],
         assumptions=[],
     ),
+    "C11": dict(
+        modules=["harness.c11"],
+        level="other",
+        explanation="Two-run product harness over the real process_request (real batch loop, handlers, access "
+                    "control): run A starts from an arbitrary transient engine state (symbolic ID placeholder, any "
+                    "protocol version and attribute policy, any identity, async flag), run B from a fresh engine, on "
+                    "equal stores; the solver must show the encoded responses and resulting stores equal on every path.",
+        stubs=["FakeSession", "RecordingCrypto", "NullLogger", "engine.time pinned"],
+        outside=["stores of more than two objects", "batches inside the probe request (intra-batch placeholder use is C08)",
+                 "placeholder strings longer than 2 characters"],
+        assumptions=["the transient fields are those assigned outside __init__ (the same six the C10 ast scan finds)"],
+    ),
 }
 
 CLAIMS = {
+    "C11": dict(
+        text="For each probe operation and KMIP version in the grid, with the identifier absent, existing or unknown, "
+             "the response bytes and the resulting store are identical whether the engine starts fresh or from any "
+             "transient state within the bounds - decided over all paths of the real request-processing code.",
+        note="Pre-state symbolic instead of exploring histories; stub store; bounded placeholder length and store size.",
+    ),
     "C08": dict(
         text="Within the bounds (<=3 items; any mix of outcomes, ID presence, continuation option) every executed item "
              "has exactly one result in order with its operation and ID echoed, processing stops at the first failure "
